@@ -10,7 +10,10 @@ import (
 	"flag"
 	"fmt"
 	"os"
+	"os/exec"
+	"path/filepath"
 	"runtime/debug"
+	"sort"
 	"strconv"
 	"strings"
 
@@ -74,6 +77,9 @@ func main() {
 		}
 		f(p, r)
 	}()
+	if *tier == "thorough" && onlyRule == "" && p != nil {
+		thorough(*prop, f, r)
+	}
 	if onlyRule != "" {
 		var keep []core.Obligation
 		for _, o := range r.Obls {
@@ -95,4 +101,188 @@ func main() {
 		return
 	}
 	os.Exit(r.Finish(p, seed, cmd))
+}
+
+// thorough adds, to the default-configuration analysis already in r:
+//
+//  1. the same rules under the repository's other build configurations. The
+//     production variants (tags release, enterprise) count like the default
+//     one: a violation there is a violation. The debugging variants
+//     (roaringparanoia, roaringsentinel, roaringstats, btreeInstrumentation,
+//     gofuzz) deliberately add assertions that panic, so their results are
+//     recorded as notes only;
+//  2. a self-test of detection power: every kept seeded change of this
+//     property (/verif/seeded/<name>, meta.json says which checks caught it) is
+//     applied in memory (go/packages overlay, /repo is not touched) and the rules
+//     are run on it; the outcome is recorded as a note. A seed whose patch no
+//     longer applies is reported as stale. The self-test never changes the verdict:
+//     it says something about the checker, not about /repo.
+func thorough(prop string, f props.Func, r *core.Report) {
+	run := func(tags string, overlay map[string][]byte) (*core.Report, error) {
+		r2 := core.NewReport(prop, "thorough")
+		var err error
+		func() {
+			defer func() {
+				if e := recover(); e != nil {
+					err = fmt.Errorf("analyzer panic: %v", e)
+				}
+			}()
+			var p2 *core.Program
+			p2, err = core.LoadOverlay(tags, overlay)
+			if err != nil {
+				return
+			}
+			f(p2, r2)
+		}()
+		return r2, err
+	}
+	summarize := func(r2 *core.Report) (nh, nbad int, bad []string) {
+		for _, o := range r2.Obls {
+			switch o.Verdict {
+			case core.Holds:
+				nh++
+			case core.Violated, core.Undecided:
+				nbad++
+				bad = append(bad, o.Rule+" "+o.Construct)
+			}
+		}
+		sort.Strings(bad)
+		return
+	}
+	have := map[string]bool{}
+	for _, o := range r.Obls {
+		have[o.Rule+"\x00"+o.Construct] = true
+	}
+	for _, cfg := range []struct {
+		tags  string
+		count bool
+	}{{"release,enterprise", true}, {"roaringparanoia,roaringsentinel,roaringstats,btreeInstrumentation,gofuzz", false}} {
+		r2, err := run(cfg.tags, nil)
+		if err != nil {
+			if cfg.count {
+				r.Undecide("build-configuration", "tags="+cfg.tags, "", err.Error())
+			} else {
+				r.Notes = append(r.Notes, "build configuration tags="+cfg.tags+": not analysed: "+err.Error())
+			}
+			continue
+		}
+		nh, nbad, bad := summarize(r2)
+		r.Notes = append(r.Notes, fmt.Sprintf("build configuration tags=%s: %d obligations hold, %d violated/undecided %v", cfg.tags, nh, nbad, bad))
+		if cfg.count {
+			for _, o := range r2.Obls {
+				if (o.Verdict == core.Violated || o.Verdict == core.Undecided) && !have[o.Rule+"\x00"+o.Construct] {
+					// only obligations the default configuration does not already carry
+					o.Detail = "[tags=" + cfg.tags + "] " + o.Detail
+					r.Obls = append(r.Obls, o)
+				}
+			}
+		}
+		r.Count("build configurations analysed", 1)
+	}
+	// self-test on kept seeds
+	metas, _ := filepath.Glob(filepath.Join(core.VerifDir(), "seeded", "*", "meta.json"))
+	sort.Strings(metas)
+	for _, mp := range metas {
+		b, err := os.ReadFile(mp)
+		if err != nil {
+			continue
+		}
+		var m struct {
+			Name     string   `json:"name"`
+			Property string   `json:"property"`
+			Fire     []string `json:"checks_that_fire"`
+		}
+		if json.Unmarshal(b, &m) != nil {
+			continue
+		}
+		expected := false
+		for _, c := range m.Fire {
+			if c == prop {
+				expected = true
+			}
+		}
+		if !expected && m.Property != prop {
+			continue
+		}
+		overlay, err := overlayFromPatch(filepath.Join(filepath.Dir(mp), "patch.diff"))
+		if err != nil {
+			r.Notes = append(r.Notes, "self-test "+m.Name+": stale ("+err.Error()+")")
+			continue
+		}
+		r2, err := run("", overlay)
+		if err != nil {
+			r.Notes = append(r.Notes, "self-test "+m.Name+": not analysed: "+err.Error())
+			continue
+		}
+		_, nbad, bad := summarize(r2)
+		// known findings of the unchanged tree do not count as detection
+		var fresh []string
+		for _, k := range bad {
+			parts := strings.SplitN(k, " ", 2)
+			if len(parts) == 2 && !core.IsKnown(prop, parts[0], parts[1]) {
+				fresh = append(fresh, k)
+			}
+		}
+		switch {
+		case expected && len(fresh) > 0:
+			r.Notes = append(r.Notes, fmt.Sprintf("self-test %s: detected as recorded (%d obligations: %v)", m.Name, len(fresh), fresh))
+		case expected:
+			r.Notes = append(r.Notes, "self-test "+m.Name+": NOT detected although meta.json records this check as catching it (checker regression?)")
+		case len(fresh) > 0:
+			r.Notes = append(r.Notes, fmt.Sprintf("self-test %s: detected (%v) although recorded as undetected; update meta.json", m.Name, fresh))
+		default:
+			r.Notes = append(r.Notes, "self-test "+m.Name+": not detected, as recorded (outside what the rules decide)")
+		}
+		_ = nbad
+		r.Count("seeded changes re-analysed", 1)
+	}
+}
+
+// overlayFromPatch applies a unified diff to copies of the files it names and
+// returns the patched contents keyed by their path in the repository.
+func overlayFromPatch(patch string) (map[string][]byte, error) {
+	b, err := os.ReadFile(patch)
+	if err != nil {
+		return nil, err
+	}
+	var files []string
+	for _, line := range strings.Split(string(b), "\n") {
+		if strings.HasPrefix(line, "+++ b/") {
+			files = append(files, strings.TrimSpace(strings.TrimPrefix(line, "+++ b/")))
+		}
+	}
+	if len(files) == 0 {
+		return nil, fmt.Errorf("no files in patch")
+	}
+	tmp, err := os.MkdirTemp("", "pvcheck-selftest-")
+	if err != nil {
+		return nil, err
+	}
+	defer os.RemoveAll(tmp)
+	for _, fn := range files {
+		src, err := os.ReadFile(filepath.Join(core.RepoDir(), fn))
+		if err != nil {
+			return nil, err
+		}
+		dst := filepath.Join(tmp, fn)
+		if err := os.MkdirAll(filepath.Dir(dst), 0o755); err != nil {
+			return nil, err
+		}
+		if err := os.WriteFile(dst, src, 0o644); err != nil {
+			return nil, err
+		}
+	}
+	cmd := exec.Command("patch", "-p1", "-s", "--no-backup-if-mismatch", "-d", tmp, "-i", patch)
+	if out, err := cmd.CombinedOutput(); err != nil {
+		return nil, fmt.Errorf("patch does not apply to the current tree: %s", strings.TrimSpace(string(out)))
+	}
+	overlay := map[string][]byte{}
+	for _, fn := range files {
+		nb, err := os.ReadFile(filepath.Join(tmp, fn))
+		if err != nil {
+			return nil, err
+		}
+		overlay[filepath.Join(core.RepoDir(), fn)] = nb
+	}
+	return overlay, nil
 }
